@@ -27,6 +27,10 @@ def valCmd (cmd : String) (args : List String) : Option String :=
       | _, _ => "unknown")
   | _, _ => none
 
+/-- state-free command groups; each property family adds its own `…Cmd` here -/
+def cmdTable : List (String → List String → Option String) :=
+  [codecCmd, valCmd]
+
 /-- one protocol line → new driver state and one output line -/
 def stepLine (st : DState) (line : String) : DState × String :=
   match (line.trimAscii.toString.splitOn " ").filter (· ≠ "") with
@@ -42,12 +46,9 @@ def stepLine (st : DState) (line : String) : DState × String :=
         let (g', o) := step st.gw op
         ({ st with gw := g' }, showObs g' o)
       | none =>
-        match codecCmd cmd args with
+        match cmdTable.findSome? (fun f => f cmd args) with
         | some out => (st, out)
-        | none =>
-          match valCmd cmd args with
-          | some out => (st, out)
-          | none => (st, "bad-op")
+        | none => (st, "bad-op")
 
 partial def loop (h : IO.FS.Stream) (out : IO.FS.Stream) (st : DState) : IO Unit := do
   let line ← h.getLine
